@@ -22,6 +22,14 @@ fn three_lines(l: &mut Listing) -> [u16; 3] {
 }
 /// `with_token == false`: lines without tokens (cannot be typed in, but the store does not care) — used where the harness
 /// has to format a symbolically selected line and token formatting would only add cost.
+fn two_lines(l: &mut Listing) -> [u16; 2] {
+    let (n0, n1) = (vk::any_u16(), vk::any_u16());
+    vk::assume(n0 < n1 && n1 <= MAXLN);
+    let m = Arc::get_mut(&mut l.source).unwrap();
+    m.harness_push_ascending(Some(n0), mk_line(Some(n0), Vec::new()));
+    m.harness_push_ascending(Some(n1), mk_line(Some(n1), Vec::new()));
+    [n0, n1]
+}
 fn three_lines_with(l: &mut Listing, with_token: bool) -> [u16; 3] {
     let (n0, n1, n2) = (vk::any_u16(), vk::any_u16(), vk::any_u16());
     vk::assume(n0 < n1 && n1 < n2 && n2 <= MAXLN);
@@ -202,5 +210,63 @@ vk_harness!(c15_insert_replaces_remove_deletes, {
     core::mem::forget(l);
     core::mem::forget(old);
     core::mem::forget(removed);
+});
+
+
+// ---------------------------------------------------------------------------------------------------------------
+// C14: RENUM's numbering (the change map and the rebuilt store)
+
+/// Numbers of the stored lines in listing order (ascending by construction of the store), padded with None.
+fn numbers_in_order(l: &Listing) -> [Option<u16>; 4] {
+    let mut out = [None; 4];
+    let mut i = 0;
+    for line in l.lines() {
+        if i < 4 {
+            out[i] = line.number();
+        }
+        i += 1;
+    }
+    out
+}
+
+//@ prop: C14
+//@ tier: quick
+//@ unwind: 12
+//@ encodes: Listing::renum (change map, order / overflow checks, rebuilt store); Line::renum on lines without references
+//@ bounds: 2 stored lines n0<n1<=65529 without tokens (state built directly); RENUM arguments: all u16 triples (new, old, step)
+vk_harness!(c14_renum_numbering_2, {
+    let mut l = Listing::default();
+    let s = two_lines(&mut l);
+    let (new_start, old_start, step) = (vk::any_u16(), vk::any_u16(), vk::any_u16());
+    vk::assume(!vk_known!(C14_RENUM_STEP_ZERO, step == 0));
+    let got = l.renum(new_start, old_start, step);
+    let after = numbers_in_order(&l);
+    vk_cover!(got.is_ok(), "reach: renum ok");
+    vk_cover!(got.is_err(), "reach: renum refused");
+    match got {
+        Err(_) => {
+            vk_check!(count(&l) == 2 && after[0] == Some(s[0]) && after[1] == Some(s[1]), "C14: a RENUM that fails must leave the program unchanged");
+        }
+        Ok(()) => {
+            vk_check!(count(&l) == 2, "C14: RENUM must keep every line (two lines must never get the same number)");
+            // expected numbers: lines below old-start keep theirs, the others become new, new+step, ...
+            let mut k: u32 = 0;
+            let mut i = 0;
+            while i < 2 {
+                let want = if s[i] < old_start {
+                    s[i] as u32
+                } else {
+                    let w = new_start as u32 + k * step as u32;
+                    k += 1;
+                    w
+                };
+                vk_check!(want <= MAXLN as u32, "C14: RENUM must not produce a line number above 65529");
+                vk_check!(after[i] == Some(want as u16), "C14: RENUM numbering: kept lines keep their numbers, the rest become new-start + i*step in the same order");
+                i += 1;
+            }
+            vk_check!(after[0] < after[1], "C14: RENUM must keep the lines in the same order");
+        }
+    }
+    core::mem::forget(l);
 });
 
